@@ -799,9 +799,11 @@ def attribute(ir, fails, normalisers, pid):
     if fails(apply(allk)):
         return None, []          # still violates with every known feature removed
     needed = [k for k in allk if fails(apply([x for x in allk if x != k]))]
-    if not needed:
-        # no single feature is necessary: any one of several suffices to break it
-        needed = [k for k in allk if not fails(apply([k]))] or allk
-    known = known_keys(pid)
-    needed.sort(key=lambda k: (k in known, allk.index(k)))
-    return needed[0], needed
+    if needed:
+        known = known_keys(pid)
+        needed.sort(key=lambda k: (k in known, allk.index(k)))
+        return needed[0], needed
+    # No feature fails on its own: several normalisers overlap (each removes the failure).
+    # `normalisers` lists the most specific mechanism first, so take that order.
+    alt = [k for k in allk if not fails(apply([k]))] or allk
+    return alt[0], alt
